@@ -225,7 +225,11 @@ def gen_instance(rng, *, inner=False, n=None, m=None):
         xs = [Fr(rng.randint(-12, 12), 4) for _ in range(n)]
         d = [Fr(0)] * n
         nst = [Fr(0)] * n
+        # `big`: one-sided active rows with large multipliers (|y*| / δ above max_penalty at δ = 1e-8):
+        # there the multiplier *update* (not the penalty) has to do the work, on the correct side of 0
+        big = (not inner) and rng.random() < 0.25
         mult = lambda: Fr(rng.choice([0, 0, 1, 2, 4, 12]), 4)   # 0 ⇒ weakly active (degenerate)
+        bigmult = lambda: Fr(rng.choice([16, 32, 64]))
         for i in range(n):
             r = rng.random()
             if unconstrained:
@@ -273,11 +277,11 @@ def gen_instance(rng, *, inner=False, n=None, m=None):
                 ys.append(Fr(rng.randint(-8, 8), 4))
             elif kind == 'act':
                 if sf < ss:       # active at the upper side
-                    Dub.append(exact_float(ss)); ys.append(mult())
-                    Dlb.append(exact_float(sf - w()) if rng.random() < 0.5 else -INF)
+                    Dub.append(exact_float(ss)); ys.append(bigmult() if big else mult())
+                    Dlb.append(exact_float(sf - w()) if (rng.random() < 0.5 and not big) else -INF)
                 else:
-                    Dlb.append(exact_float(ss)); ys.append(-mult())
-                    Dub.append(exact_float(sf + w()) if rng.random() < 0.5 else INF)
+                    Dlb.append(exact_float(ss)); ys.append(-(bigmult() if big else mult()))
+                    Dub.append(exact_float(sf + w()) if (rng.random() < 0.5 and not big) else INF)
             else:
                 lo, hi = min(ss, sf), max(ss, sf)
                 Dlb.append(exact_float(lo - w()) if rng.random() < 0.6 else -INF)
@@ -292,7 +296,8 @@ def gen_instance(rng, *, inner=False, n=None, m=None):
     return dict(n=n, m=m, Q=[exact_float(a) for r in Q for a in r], c=[exact_float(a) for a in c],
                 A=[exact_float(a) for r in A for a in r], Clb=Clb, Cub=Cub, Dlb=Dlb, Dub=Dub,
                 xf=[exact_float(a) for a in xf], mu=mu, Bk=len(B), B=[exact_float(a) for r in B for a in r],
-                x0=[exact_float(a) for a in x0], y0=[exact_float(a) for a in y0], fam=fam)
+                x0=[exact_float(a) for a in x0], y0=[exact_float(a) for a in y0],
+                fam=fam + ('-bigmult' if (planted and big) else ''))
 
 
 def limits(stack):
@@ -331,6 +336,8 @@ def gen_ops_factory(tier):
             inner = (k % 10) >= 7
             p = gen_instance(rng, inner=inner)
             tol = rng.choice([1e-4, 1e-6, 1e-8]); dtol = rng.choice([1e-4, 1e-6, 1e-8])
+            if p['fam'].endswith('-bigmult'):
+                dtol = 1e-8
             w = 1 if inner else 0
             stacks = [STACKS[(ctr[w] + t) % len(STACKS)] for t in range(per)]
             ctr[w] += per
